@@ -18,6 +18,9 @@
 EXTENDS Naturals
 \* (1) over = requested - end_k at the moment document k is delivered (0 if the request has not even reached its end)
 Within(over, block) == over <= 2 * block
+\* when the stream is a real file object and consumption is observed from outside (position of the file descriptor), the
+\* file object's own read-ahead (measured without the library) is not charged to the library
+Charged(pos, slack) == IF pos > slack THEN pos - slack ELSE 0
 \* (2) an error that belongs to document m is raised when `delivered` documents have been handed out
 OrderOk(m, delivered) == delivered + 1 >= m
 \* (2, reader errors) dist = offset of the offending unit - end_k for an undelivered document k
